@@ -54,6 +54,8 @@ type cancelCtx struct {
 	hasDL    bool
 	children []*cancelCtx
 	key, val any
+	cause    error
+	onCancel func() // AfterFunc
 }
 
 //go:norace
@@ -85,6 +87,9 @@ func (c *cancelCtx) cancel(err error) {
 	}
 	c.err = err
 	vchan.Close(c.done)
+	if c.onCancel != nil {
+		c.onCancel()
+	}
 	for _, ch := range c.children {
 		ch.cancel(err)
 	}
